@@ -37,7 +37,7 @@ VARIANTS = {
 ASAN_OPTS = 'detect_leaks=0:allocator_may_return_null=1:alloc_dealloc_mismatch=0:exitcode=86:abort_on_error=0:detect_stack_use_after_return=0:max_allocation_size_mb=4096'
 ASAN_NOSIG = ':handle_segv=0:handle_abort=0:handle_sigbus=0:handle_sigill=0:handle_sigfpe=0'
 UBSAN_OPTS = 'print_stacktrace=1:halt_on_error=0'
-MEMCHECK = ['valgrind', '--tool=memcheck', '-q', '--error-exitcode=87', '--exit-on-first-error=yes', '--leak-check=no', '--soname-synonyms=somalloc=nouserintercepts',
+MEMCHECK = ['valgrind', '--tool=memcheck', '-q', '--vgdb=no', '--error-exitcode=87', '--exit-on-first-error=yes', '--leak-check=no', '--soname-synonyms=somalloc=nouserintercepts',
             '--undef-value-errors=yes', '--show-mismatched-frees=no', '--track-origins=no', '--num-callers=12', '--child-silent-after-fork=no',
             '--suppressions=' + os.path.join(VERIF, 'cfg', 'memcheck.supp')]
 MEMCHECK_DEFAULT_STRIDE = {'quick': 400, 'thorough': 150}
